@@ -3,7 +3,7 @@
    non-zero keep factor. *)
 From Coq Require Import ZArith List Bool String Lia ZifyBool.
 From Droop Require Import Model.KernelBase Model.Str Model.Arith Model.Prelude Model.State Model.Prims Model.RulesMeek
-  Proofs.CmdMeta Proofs.Zlike Proofs.Gregory Proofs.MeekDist Proofs.Status Proofs.ForwardOps.
+  Proofs.CmdMeta Proofs.Zlike Proofs.Gregory Proofs.MeekDist Proofs.Status Proofs.ForwardOps Proofs.Decided.
 Import ListNotations.
 Open Scope Z_scope.
 
@@ -697,6 +697,59 @@ Proof.
     - intros s [H|[H _]]; [contradiction|exact H].
     - eapply t_pre with (P := MI); [intros s H; exact (proj1 H)|]. apply meek_body_triple. }
   apply t_do_nc. intros s M Hc. apply mi_final; assumption.
+Qed.
+
+
+(* ---- the final 'end' snapshot: nobody is left hopeful, the residual is what the elected do not hold ---- *)
+Definition EndEq (s : est) : Prop :=
+  R (residual s) + fold_right (fun x acc => R x + acc) 0 (map (@cvote A) (electeds A s)) = cf_nballots cfg * S.
+
+Lemma final_end_eq (s : est) : EndEq (meek_final A cfg true s).
+Proof.
+  unfold meek_final, EndEq. cbv zeta. cbn [residual set_residual votes set_votes].
+  rewrite (r_sub A S ZL), (r_of_int A S ZL), r_vsum'. unfold electeds. cbn [cands set_residual set_votes]. lia.
+Qed.
+
+Lemma tot_elected (l : list cand) : (forall c, In c l -> is_he c = false -> R (cvote c) = 0) ->
+  filter (in_state A Hopeful) l = [] ->
+  tot l = fold_right (fun x acc => R x + acc) 0 (map (@cvote A) (filter (in_state A Elected) l)).
+Proof.
+  unfold MeekDist.tot. induction l as [|c l IH]; intros Hz Hh; [reflexivity|]. cbn [filter] in *.
+  destruct (in_state A Hopeful c) eqn:E1; [discriminate|].
+  specialize (IH (fun c' Hc' => Hz c' (or_intror Hc')) Hh). cbn [fold_right]. rewrite IH.
+  destruct (in_state A Elected c) eqn:E2; cbn [map fold_right]; [reflexivity|].
+  rewrite (Hz c (or_introl eq_refl)); [lia|]. unfold is_he. rewrite E1, E2. reflexivity.
+Qed.
+
+Definition EndOK (s : est) : Prop := MI s /\ NoHop A s /\ EndEq s.
+
+Theorem meek_triple_end (Qb Qc : est -> Prop) : T3 Pre0 (meek A cfg) EndOK Qb Qc.
+Proof.
+  rewrite meek_unfold.
+  eapply t_seq with (M := MI).
+  { apply t_do_nc. intros s P Hc. apply mi_begin; assumption. }
+  eapply t_seq with (M := MI).
+  { eapply t_post; [|apply (t_while est (@crashed A) MI (fun _ => False))].
+    - intros s [H|[H _]]; [contradiction|exact H].
+    - eapply t_pre with (P := MI); [intros s H; exact (proj1 H)|]. apply meek_body_triple. }
+  apply t_do_nc. intros s M Hc. split; [apply mi_final; assumption|split; [apply meek_final_nohop; exact Hc|apply final_end_eq]].
+Qed.
+
+Definition EndSnap (s : est) : Prop :=
+  match actions s with
+  | a :: _ => a_tag a = TEnd /\
+              match a_snap a with
+              | Some sn => R (as_votes sn) + match as_nt sn with Some x => R x | None => 0 end = cf_nballots cfg * S
+              | None => False
+              end
+  | [] => False
+  end.
+
+Lemma end_snap m (s : est) : EndOK s -> EndSnap (log_action A cfg TEnd m s).
+Proof.
+  intros (M & Hn & He). unfold EndSnap, log_action. cbn [is_log is_round actions set_actions a_tag a_snap].
+  split; [reflexivity|]. unfold snap_of. cbn [as_votes as_nt]. rewrite Hmeth, r_vsum'. unfold eligibles.
+  rewrite (elig_tot _ (mi_z0 _ M)). rewrite (tot_elected _ (mi_z0 _ M) Hn). unfold EndEq, electeds in He. lia.
 Qed.
 
 End MeekRun.
